@@ -907,11 +907,26 @@ fn gen_ml_case(rng: &mut Rng, stats: &mut Stats) -> (String, String, String) {
     (case, replay, format!("pm:{:?}", shown))
 }
 
+/// (kind, Wide flag) of every sub-pattern the compiler made of pattern number `pattern` of the rule set
+fn coq_subs(out: &ScanOut, pattern: usize) -> String {
+    let bits: std::collections::HashMap<&str, u16> = yara_x::verif_c01dump::verif_c01_flag_bits().into_iter().collect();
+    match &out.dump {
+        None => "[]".into(),
+        Some((sps, _, _)) => {
+            let v: Vec<String> = sps.iter().filter(|sp| sp.pattern_id == pattern).map(|sp| {
+                let k = match sp.kind { "Literal" => 0, "LiteralWithMask" => 1, "LiteralChainHead" => 2, "LiteralChainTail" => 3, "Regexp" => 4,
+                    "RegexpChainHead" => 5, "RegexpChainTail" => 6, "Xor" => 7, "Base64" | "Base64Wide" | "CustomBase64" | "CustomBase64Wide" => 8, _ => 9 };
+                format!("({},{})", coq_nat(k), coq_bool(sp.flags & bits["Wide"] != 0)) }).collect();
+            format!("[{}]", v.join("; "))
+        }
+    }
+}
+
 // ------------------------------------------------------------------ stream (b)
 fn scan_case(p: &Pat, data: &[u8], cond: usize, noise: usize, max_matches: Option<usize>, idx: usize) -> Result<(String, String, ScanOut), String> {
     let src = rule_source(p, cond, noise);
     let out = scan(&src, data, max_matches)?;
-    let case = format!("ScanCase {} {} {} {} {}", coq_pat(p), coq_list(data, |b| b.to_string()),
+    let case = format!("ScanCase {} {} {} {} {} {}", coq_pat(p), coq_subs(&out, 0), coq_list(data, |b| b.to_string()),
         match max_matches { Some(n) => format!("(Some {})", n), None => "None".into() },
         coq_bool(out.panic.is_some() || out.bytes_wrong.is_some()),
         coq_list(&out.matches, |(s, l, k)| format!("({},{},{})", s, l, coq_key(k))));
@@ -1277,6 +1292,36 @@ fn directed_assert(rng: &mut Rng, round: usize) -> (Pat, Vec<Vec<u8>>, &'static 
         if wide_buf && rng.chance(1, 3) { buf.pop(); }
         bufs.push(buf);
     }
+    (p, bufs, name)
+}
+
+
+// ------------------------------------------------------------------ stream (c7): regexps of the masked-literal shape
+/// a REGEXP made only of literals, `.` and classes that are nibble masks (the shape the compiler
+/// turns into a LiteralWithMask sub-pattern when neither `nocase` nor `wide` is present, and into one
+/// Regexp sub-pattern per form otherwise) x {ascii, wide, ascii wide, nocase, fullword, nocase ascii wide}
+fn directed_masked_regexp(rng: &mut Rng, round: usize) -> (Pat, Vec<Vec<u8>>, &'static str) {
+    let mut m = RMods::default();
+    m.dotall = rng.chance(2, 3);
+    let name = match round % 6 {
+        0 => "ascii", 1 => { m.wide = true; "wide" } 2 => { m.wide = true; m.ascii = true; "ascii_wide" }
+        3 => { m.nocase = true; "nocase" } 4 => { m.fullword = true; "fullword" }
+        _ => { m.nocase = true; m.wide = true; m.ascii = true; "nocase_ascii_wide" }
+    };
+    let n = 4 + rng.below(5) as usize;
+    let mut v: Vec<Re> = vec![];
+    for i in 0..n {
+        let b = *rng.pick(b"abcdeXY0123");
+        if i > 0 && i + 1 < n && rng.chance(1, 3) {
+            v.push(match rng.below(3) {
+                0 => if m.dotall { Re::Cls(Cls::Any) } else { Re::Cls(Cls::Ranges(true, vec![(10, 10)])) },
+                1 => { let h = *rng.pick(&[0x30u8, 0x40, 0x60, 0x70]); Re::Cls(Cls::Ranges(false, vec![(h, h | 0x0f)])) }
+                _ => Re::Cls(Cls::Ranges(false, vec![(0x30, 0x3f)])),
+            });
+        } else { v.push(Re::Lit(vec![b])); }
+    }
+    let p = Pat::Regexp(Re::Cat(v), m);
+    let bufs = (0..2).map(|_| gen_buffer(&p, rng, 60)).collect();
     (p, bufs, name)
 }
 
@@ -1686,7 +1731,7 @@ fn multi_cases(rng: &mut Rng, idx: usize, stats: &mut Stats) -> Vec<(String, Str
             let p = &pats[pi]; let data = &datas[bi];
             stats.inc("multi_cases"); if bi > 0 { stats.inc("multi_second_scan_same_scanner"); }
             stats.inc(match out.matches.len() { 0 => "multi_matches_0", 1 => "multi_matches_1", _ => "multi_matches_2+" });
-            let case = format!("ScanCase {} {} None {} {}", coq_pat(p), coq_list(data, |b| b.to_string()),
+            let case = format!("ScanCase {} [(10%nat, false)] {} None {} {}", coq_pat(p), coq_list(data, |b| b.to_string()),
                 coq_bool(out.panic.is_some() || out.bytes_wrong.is_some()),
                 coq_list(&out.matches, |(s, l, k)| format!("({},{},{})", s, l, coq_key(k))));
             let replay = format!("{{\"stream\":\"scan\",\"sub_stream\":\"multi\",\"index\":{},\"shape\":{},\"tags\":{},\"data_len\":{},\"source\":{},\"ident\":{},\"prior_data_hex\":{},\"data_hex\":\"{}\",\"max_matches_per_pattern\":null,\"reported\":{},\"panic\":{}}}",
@@ -1791,6 +1836,9 @@ pub fn run(args: &[String]) -> i32 {
                 6 => { let (p, bufs, fam) = directed_assert(&mut rng, round / 8);
                        for d in bufs { if !push(&p, &d, 0, "directed_assertion_next_to_atom", &mut stats, &mut shards, &mut distinct) { return 2; } }
                        stats.inc(&format!("assert_{}", fam)); }
+                5 => { let (p, bufs, fam) = directed_masked_regexp(&mut rng, round / 8);
+                       for d in bufs { if !push(&p, &d, 0, "directed_masked_literal_regexp", &mut stats, &mut shards, &mut distinct) { return 2; } }
+                       stats.inc(&format!("masked_regexp_{}", fam)); }
                 7 => { let (p, bufs, fam) = directed_consecutive_jumps(&mut rng);
                        for d in bufs { if !push(&p, &d, 0, "directed_consecutive_jumps", &mut stats, &mut shards, &mut distinct) { return 2; } }
                        stats.inc(&format!("consecutive_jumps_{}", fam)); }
